@@ -10,6 +10,7 @@ import (
 	"runtime"
 	"runtime/metrics"
 	"strings"
+	"time"
 
 	"github.com/philpearl/plenc/plenccodec"
 	"github.com/philpearl/plenc/plenccore"
@@ -44,6 +45,15 @@ type StoreCase struct {
 	// long-lived instances before (and including) this case. Replaying them
 	// re-creates the state the finding depends on.
 	History *StoreHistory `json:"history,omitempty"`
+	// Scale: the case is a scale probe (records regenerated from the seed).
+	Scale *ScaleCase `json:"scale,omitempty"`
+}
+
+type ScaleCase struct {
+	Seed   uint64 `json:"seed"`
+	Index  int    `json:"index"`
+	N      int    `json:"elements"`
+	Damage int    `json:"damage"`
 }
 
 type StoreHistory struct {
@@ -612,6 +622,29 @@ func EnumerateFaults(a, b []byte, thorough bool, emit func(f fault) bool) {
 			}
 		}
 	}
+	// counts and lengths of every magnitude: a varint encoding 2^k (+-1) written over each offset
+	for _, k := range []uint{7, 14, 20, 21, 28, 31, 32, 35, 56, 62, 63} {
+		for _, delta := range []int64{-1, 0, 1} {
+			v := uint64(int64(uint64(1)<<k) + delta)
+			var vb []byte
+			for x := v; ; x >>= 7 {
+				if x < 0x80 {
+					vb = append(vb, byte(x))
+					break
+				}
+				vb = append(vb, byte(x)|0x80)
+			}
+			for i := 0; i < n; i++ {
+				if !thorough && (i+int(k))%3 != 0 {
+					continue // quick: every third offset, staggered by magnitude
+				}
+				d := append(append(append([]byte(nil), a[:i]...), vb...), a[min(n, i+1):]...)
+				if !emit(fault{"replace_with_varint", fmt.Sprintf("byte %d replaced by the varint of %d", i, v), d}) {
+					return
+				}
+			}
+		}
+	}
 	// dropped and duplicated blocks
 	sizes := []int{1, 2, 4}
 	if thorough {
@@ -842,6 +875,161 @@ func (s *StoreSim) ShortBlocks(idx int, thorough bool) (*Violation, *StoreCase) 
 }
 
 // ---------------------------------------------------------------------------
+// scale probe: "terminates promptly" and "a fixed multiple of the input
+// length" are statements about growth. Records with N, 4N, 16N ... elements
+// are decoded (valid and damaged) and the cost per input byte must not grow.
+
+var scaleTypes = []string{"[]Inner", "[]string", "[]int", "[][]byte", "[]*Node", "MapSI", "MapKS", "MapKV", "Wide", "JDoc", "V2", "[]float64", "Maps", "MTarget", "SymBox", "Node", "RootA"}
+
+type scalePoint struct {
+	steps   int
+	n, size int
+	nanos   int64
+	alloc   uint64
+}
+
+// ScaleJobs is the number of scale probes.
+func ScaleJobs() int { return 2 * len(scaleTypes) }
+
+func (s *StoreSim) ScaleProbe(seed uint64, idx int, thorough bool) (*Violation, *StoreCase) {
+	cfg := world.InstCfg{}
+	if idx%2 == 1 {
+		cfg = world.InstCfg{ProtoArrays: true, ProtoTime: true}
+	}
+	tn := scaleTypes[(idx/2)%len(scaleTypes)]
+	ti := world.Types[tn]
+	if !world.TopOK(&world.TypeInfo{T: ti.T, Top: true}, cfg) {
+		return nil, nil
+	}
+	sizes := []int{256, 1024, 4096}
+	if thorough {
+		sizes = []int{256, 1024, 4096, 16384}
+	}
+	var rd *storeReader
+	for _, r := range s.readersFor(tn, cfg) {
+		if r.mode == "unmarshal" && r.ti.Name == tn {
+			rd = r
+		}
+	}
+	if rd == nil {
+		return nil, nil
+	}
+	damage := []struct {
+		name string
+		f    func(b []byte) []byte
+	}{
+		{"valid", func(b []byte) []byte { return b }},
+		{"cut at half", func(b []byte) []byte { return b[:len(b)/2] }},
+		{"cut one byte short", func(b []byte) []byte { return b[:len(b)-1] }},
+		{"bit flip at a quarter", func(b []byte) []byte { c := append([]byte(nil), b...); c[len(c)/4] ^= 0x10; return c }},
+		{"zeros from three quarters", func(b []byte) []byte {
+			c := append([]byte(nil), b...)
+			for i := len(c) * 3 / 4; i < len(c); i++ {
+				c[i] = 0
+			}
+			return c
+		}},
+	}
+	points := make([][]scalePoint, len(damage)+1)
+	for _, n := range sizes {
+		r := engine.PRNG{S: engine.Mix(seed, 0x5CA1E, uint64(idx), uint64(n))}
+		v := world.Gen(ti.T, &r, world.GenOpts{Size: 8, Fanout: n, ZeroPct: 20})
+		rec, errs, pan := soloMarshal(cfg, v.Addr().Interface())
+		InstallStoreHooks()
+		if pan != "" || errs != "" || len(rec) < n {
+			return nil, nil
+		}
+		s.St.Records++
+		s.St.Types[tn]++
+		// misdirected append: the record followed by many tiny records of the same
+		// struct type (every field then occurs again and again in one message)
+		var tail []byte
+		if ti.T.Kind() == reflect.Struct {
+			tv := world.Gen(ti.T, &r, world.GenOpts{Size: 6, Fanout: 1, ZeroPct: 10})
+			if tb, terr, tpan := soloMarshal(cfg, tv.Addr().Interface()); tpan == "" && terr == "" && len(tb) > 0 && len(tb) < 4096 {
+				for len(tail) < len(rec) {
+					tail = append(tail, tb...)
+				}
+			}
+			InstallStoreHooks()
+		}
+		for di := 0; di <= len(damage); di++ {
+			var d struct {
+				name string
+				f    func(b []byte) []byte
+			}
+			if di < len(damage) {
+				d = damage[di]
+			} else if tail != nil {
+				d.name, d.f = "followed by many tiny records", func(b []byte) []byte { return append(append([]byte(nil), b...), tail...) }
+			} else {
+				continue
+			}
+			input := d.f(rec)
+			c := &StoreCase{Type: tn, Reader: tn, Mode: "unmarshal", Cfg: cfg, Fault: fmt.Sprintf("scale probe: %d elements, %s", n, d.name), Scale: &ScaleCase{Seed: seed, Index: idx, N: n, Damage: di}}
+			s.St.ByFault["scale_"+strings.ReplaceAll(d.name, " ", "_")]++
+			best := int64(1 << 62)
+			var alloc uint64
+			lastSteps := 0
+			for rep := 0; rep < 3; rep++ {
+				buf := present(input, nil, "exact")
+				t0 := nanotime()
+				res := s.decodeOnce(s.inst(cfg), rd, buf, true)
+				dt := nanotime() - t0
+				s.St.Decodes++
+				if res.hang {
+					return violStore("hang", res.site, fmt.Sprintf("decode of a %d-byte input (%s) did not finish within %d steps (loop at %s)", len(input), c.Fault, 64+16*len(input), res.site), c), c
+				}
+				if res.panicked != "" {
+					return violStore("panic", res.site, fmt.Sprintf("panic: %s at %s (%s)", res.panicked, res.site, c.Fault), c), c
+				}
+				bound := uint64(allocBase + rd.k*len(input))
+				if res.alloc > bound {
+					return violStore("blowup", "", fmt.Sprintf("decoding a %d-byte input (%s) allocated %d bytes (allowance %d)", len(input), c.Fault, res.alloc, bound), c), c
+				}
+				if dt < best {
+					best = dt
+				}
+				alloc = res.alloc
+				lastSteps = res.steps
+			}
+			points[di] = append(points[di], scalePoint{n: n, size: len(input), nanos: best, alloc: alloc, steps: lastSteps})
+		}
+	}
+	// growth: cost per decode step (how far a damaged decode gets is not
+	// proportional to its size, so bytes are not the right denominator) at the
+	// largest size against the smallest
+	for di, ps := range points {
+		if len(ps) < 2 {
+			continue
+		}
+		a, b := ps[0], ps[len(ps)-1]
+		if a.steps < 200 || b.steps < 4*a.steps {
+			continue
+		}
+		ta := float64(a.nanos) / float64(a.steps)
+		tb := float64(b.nanos) / float64(b.steps)
+		ma := float64(a.alloc+4096) / float64(a.steps)
+		mb := float64(b.alloc+4096) / float64(b.steps)
+		dname := "followed by many tiny records"
+		if di < len(damage) {
+			dname = damage[di].name
+		}
+		c := &StoreCase{Type: tn, Reader: tn, Mode: "unmarshal", Cfg: cfg, Fault: "scale probe: " + dname, Scale: &ScaleCase{Seed: seed, Index: idx, N: b.n, Damage: di}}
+		if mb > 8*ma && b.alloc > 4<<20 {
+			return violStore("blowup", "", fmt.Sprintf("allocation per decode step grows with the input: %d bytes over %d steps for a %d-byte input but %d bytes over %d steps for a %d-byte input (%s)", a.alloc, a.steps, a.size, b.alloc, b.steps, b.size, dname), c), c
+		}
+		if tb > 6*ta && b.nanos > 20e6 {
+			s.St.AllocSuspects++
+			return violStore("slow", "", fmt.Sprintf("decode time per step grows with the input: %d ns over %d steps for %d bytes but %d ns over %d steps for %d bytes (%s)", a.nanos, a.steps, a.size, b.nanos, b.steps, b.size, dname), c), c
+		}
+	}
+	return nil, nil
+}
+
+func nanotime() int64 { return time.Now().UnixNano() }
+
+// ---------------------------------------------------------------------------
 // replay and minimisation
 
 func sigOf(v *Violation) string {
@@ -856,6 +1044,15 @@ func sigOf(v *Violation) string {
 // its history if it has one.
 func RunStoreCase(c *StoreCase) *Violation {
 	s := NewStoreSim()
+	if c.Scale != nil {
+		// the growth measurement involves the real clock: best of three tries
+		for try := 0; try < 3; try++ {
+			if v, _ := s.ScaleProbe(c.Scale.Seed, c.Scale.Index, c.Scale.N > 4096); v != nil {
+				return v
+			}
+		}
+		return nil
+	}
 	if c.History != nil {
 		for _, idx := range c.History.Records {
 			if v, _ := s.StoreRecord(c.History.Seed, idx, c.History.Thorough); v != nil {
